@@ -23,7 +23,7 @@ CONFIG = {"quick": {"shards": 8, "timeout_s": 600, "kernel_batches": 200, "nets"
           "thorough": {"shards": 16, "timeout_s": 3000, "kernel_batches": 6000, "nets": 3000, "sequences": 1500,
                        "env": {"NUMBA_BOUNDSCHECK": "1"}}}
 REQUIRED_COUNTERS = ["kernel_pairs_hydraulic_incomp", "kernel_pairs_hydraulic_comp", "kernel_pairs_lambda", "kernel_pairs_medium_pressure",
-                     "kernel_pairs_derived_values", "kernel_pairs_thermal", "kernel_pairs_grouped_sum", "edge_rows_zero_flow",
+                     "kernel_pairs_derived_values", "kernel_pairs_thermal", "kernel_pairs_thermal_transient", "kernel_pairs_grouped_sum", "edge_rows_zero_flow",
                      "edge_rows_equal_pressures", "edge_rows_reverse_flow", "edge_rows_zero_length", "edge_rows_nan_flow",
                      "engine_pairs_compared", "engine_pairs_thermal", "engine_pairs_gas", "update_sequences_compared",
                      "update_steps_with_changed_loads"]
@@ -166,6 +166,27 @@ def run_kernels(case, obs):
             # branches below the zero-flow threshold (1e-10 kg/s) are cut to zero by one engine only: <= cp * 1e-10 * dT
             judge("thermal", o1, o2, {0, 2, 5, 8}, ["fn", "dfn_dt", "fnt", "dfnt_dt", "dfnt_dtout", "fb", "dfb_dt", "dfb_dtout", "infeed"],
                   tol={"fnt": lambda a, b: bool(np.all(np.abs(a - b) <= 1e-4))})
+            # transient form of the same kernels (previous time step values from separate 'old' tables)
+            npit_old = npit.copy()
+            npit_old[:, inn.TINIT] = rng.uniform(280, 360, nn)
+            bt_old = bt.copy()
+            bt_old[:, ib.TOUTINIT] = rng.uniform(280, 360, nb)
+            # some stagnant branches so that nodes without flow exist
+            bt2 = bt.copy()
+            stag = rng.random(nb) < 0.4
+            bt2[stag, ib.MDOTINIT] = 0.0
+            targs = (npit.copy(), bt2, npit_old, np.arange(inn.node_cols, dtype=np.int32), bt_old, np.arange(ib.branch_cols, dtype=np.int32),
+                     fn, tn, t_i, t_i1, t_nt, t_n, cp_n, cp_b, rho, float(rng.choice([60.0, 900.0])), True, 293.15)
+            o1 = list(dn.derivatives_thermal_np(*targs))
+            o2 = list(dj.derivatives_thermal_numba(*targs))
+            mask = np.zeros(nn, dtype=bool)
+            mask[np.asarray(o1[8], dtype=int)] = True
+            o1[8] = mask.astype(float)
+            o2[8] = np.asarray(o2[8]).astype(float)
+            judge("thermal_transient", o1, o2, {0, 2, 5, 8}, ["fn", "dfn_dt", "fnt", "dfnt_dt", "dfnt_dtout", "fb", "dfb_dt", "dfb_dtout", "infeed"],
+                  tol={"fnt": lambda a, b: bool(np.all(np.abs(a - b) <= 1e-4)),
+                       "fn": lambda a, b: bool(np.all(np.abs(a - b) <= 1e-9 * (1 + np.maximum(np.abs(a), np.abs(b))))),
+                       "fb": lambda a, b: bool(np.all(np.abs(a - b) <= 1e-9 * (1 + np.maximum(np.abs(a), np.abs(b)))))})
         except Exception as e:
             obs.count("thermal_kernel_call_failed_" + type(e).__name__)
     # grouped sums (index arrays up to and beyond 1e5, empty arrays)
